@@ -68,6 +68,9 @@ pub fn run(cfg: &Cfg, rep: &mut Report) {
         // half of the failing handlers refuse before reading their parameters: the error reported must still be
         // theirs, not a complaint about the data they left unread
         scripts[f].fail_before_pulls = rng.bool();
+        // a third of the failing handlers do not return the error themselves: a response datum of their own type refuses to
+        // be formatted with it (query form; the event form returns it as before)
+        scripts[f].fail_via_response = rng.chance(1, 3);
         scripts[g].omnivore = false;
         scripts[g].pulls = vec![Pull { optional: false, conv: Conv::Token }; 2];
         let built: Built<Dev, Script> = Built::new(&specs, scripts.clone());
